@@ -137,9 +137,7 @@ func (it *Interp) callPure(caller *frame, site ssa.Instruction, fn *ssa.Function
 			panic(specAbort{"impure intrinsic " + name})
 		}
 		fr := &frame{it: it, caller: caller, fn: fn, callInstr: site}
-		if caller != nil {
-			fr.g = caller.g
-		}
+		fr.g = it.cur
 		return ext(fr, args)
 	}
 	if !it.staticPure(fn) {
@@ -153,9 +151,7 @@ func (it *Interp) callPure(caller *frame, site ssa.Instruction, fn *ssa.Function
 	it.funcsSeen[fn] = true
 	fi := it.info(fn)
 	fr := &frame{it: it, caller: caller, fn: fn, info: fi, callInstr: site}
-	if caller != nil {
-		fr.g = caller.g
-	}
+	fr.g = it.cur
 	fr.env = make([]Value, fi.n)
 	fr.block = fn.Blocks[0]
 	for i, p := range fn.Params {
